@@ -65,6 +65,8 @@ def gen(rng, tier):
             if sg.vars_of(ast):
                 break
         mo = {'kind': kind, 'mode': mode, 'ast': ast}
+        if mode == 'on' and rng.random() < 0.3:
+            mo['pastify'] = True       # (a past-time specification: pastify() changes nothing, but the pastifier runs)
         if cfg_:
             mo['cfg'] = cfg_
         if rng.random() < 0.3 and sg.size(ast) >= 4:
@@ -95,7 +97,7 @@ def gen(rng, tier):
             'dup_stamp': [v for v in vars_ if rng.random() < 0.6] if rng.random() < 0.12 else [],
             # recorded signals that end with an explicit "holds forever" sample [inf, last value] (dense offline objects)
             'inf_tail': [v for v in vars_ if rng.random() < 0.6] if rng.random() < 0.2 else [],
-            'hashseeds': [1, 2, 31337] if rng.random() < 0.025 else [],
+            'hashseeds': [1, 31337] if rng.random() < 0.05 else [],
             # every object is also run ALONE in a fresh interpreter (state that outlives an object - a process-wide cache - pollutes
             # the in-process solo runs as well)
             'solo_fresh': clash or rng.random() < 0.01}
@@ -109,6 +111,8 @@ def _desc(sc, mo):
         d = {'cls': mo['kind'], 'vars': common.var_decls(sc['vars']), 'spec': mo['top'], 'subspecs': list(mo['subs'])}
     if mo.get('cfg'):
         d.update(mo['cfg'])
+    if mo.get('pastify'):
+        d['pastify'] = True
     return d
 
 
@@ -311,7 +315,8 @@ def run(sc):
             env = dict(os.environ)
             env['PYTHONHASHSEED'] = str(hs)
             code = ('import sys, json; sys.path.insert(0, %r); from sim.props import c11; from sim.core import Result, jdump; '
-                    'sc = json.load(sys.stdin); print(jdump(c11.in_process(sc, Result())))' % VERIF)
+                    'from sim import monitors as M; sc = json.load(sys.stdin); M.set_env(sc.get("_env")); '
+                    'print(jdump(c11.in_process(sc, Result())))' % VERIF)
             p = subprocess.run([sys.executable, '-B', '-c', code], input=json.dumps(sc), env=env, capture_output=True, text=True,
                                timeout=120, cwd=VERIF)
             r.evals += 1
@@ -326,7 +331,8 @@ def run(sc):
             env = dict(os.environ)
             env['PYTHONHASHSEED'] = '0'
             code = ('import sys, json; sys.path.insert(0, %r); from sim.props import c11; from sim.core import Result, jdump; '
-                    'sc = json.load(sys.stdin); print(jdump(c11.in_process(sc, Result())))' % VERIF)
+                    'from sim import monitors as M; sc = json.load(sys.stdin); M.set_env(sc.get("_env")); '
+                    'print(jdump(c11.in_process(sc, Result())))' % VERIF)
             p = subprocess.run([sys.executable, '-B', '-c', code], input=json.dumps(scj), env=env, capture_output=True, text=True,
                                timeout=120, cwd=VERIF)
             r.evals += 1
